@@ -19,6 +19,7 @@ import (
 	"testing"
 	"time"
 
+	"github.com/ethereum/go-ethereum/common"
 	"github.com/gauss-project/aurorafs/pkg/boson"
 	"github.com/gauss-project/aurorafs/pkg/logging"
 	"github.com/gauss-project/aurorafs/pkg/routetab/pb"
@@ -175,6 +176,15 @@ func c27Wipe(x *mc.X, store storage.StateStorer) {
 	}
 }
 
+var c27KeyName = func() map[common.Hash]string {
+	m := map[common.Hash]string{}
+	for _, s := range c27Menu {
+		key, _ := generatePathItems(convItemsToBytes(c27Items(s)))
+		m[key] = s
+	}
+	return m
+}()
+
 func c27Old(p *Path) bool { return time.Since(p.UsedTime) > c27Mid }
 
 // c27Canon dumps everything that can influence future behaviour: the in-memory
@@ -192,12 +202,9 @@ func c27Canon(x *mc.X, tab *Table, store storage.StateStorer) string {
 	for k, rs := range tab.routes {
 		var sb strings.Builder
 		for _, r := range rs {
-			pk := "?"
-			for _, m := range c27Menu {
-				key, _ := generatePathItems(convItemsToBytes(c27Items(m)))
-				if key == r.PathKey {
-					pk = m
-				}
+			pk, ok := c27KeyName[r.PathKey]
+			if !ok {
+				pk = "?"
 			}
 			fmt.Fprintf(&sb, "%s>%s,", pk, c27Name(r.Neighbor))
 		}
@@ -245,7 +252,6 @@ func c27Oracle(x *mc.X, tab *Table, m *c27Model, alpha int, reloaded bool, when 
 	if reloaded {
 		sfx = "-after-reload"
 	}
-	// all skip lists over {a,b,c,d}
 	for t := range c27Nodes {
 		target := c27Nodes[t]
 		tn := c27NodeNames[t : t+1]
@@ -253,51 +259,75 @@ func c27Oracle(x *mc.X, tab *Table, m *c27Model, alpha int, reloaded bool, when 
 		tab.mu.RLock()
 		nr := len(tab.routes[getTargetKey(target)])
 		tab.mu.RUnlock()
-		x.Check(nr <= alpha, "route-list-exceeds-alpha"+sfx, "%s: target %s has %d routes, alpha=%d", when, tn, nr, alpha)
-
+		if nr > alpha {
+			x.Fail("route-list-exceeds-alpha"+sfx, "%s: target %s has %d routes, alpha=%d", when, tn, nr, alpha)
+		}
 		got, err := tab.Get(target)
-		if err == nil {
-			x.Check(len(got) <= alpha, "get-returns-more-than-alpha"+sfx, "%s: Get(%s) returned %d paths, alpha=%d", when, tn, len(got), alpha)
+		if err == nil && len(got) > alpha {
+			x.Fail("get-returns-more-than-alpha"+sfx, "%s: Get(%s) returned %d paths, alpha=%d", when, tn, len(got), alpha)
 		}
 		for _, p := range got {
 			spec := c27Spec(p.Items)
-			x.Check(c27TargetBeforeLast(spec, t), "returned-path-lacks-target-before-last-hop"+sfx, "%s: Get(%s) returned path %s", when, tn, spec)
+			if !c27TargetBeforeLast(spec, t) {
+				x.Fail("returned-path-lacks-target-before-last-hop"+sfx, "%s: Get(%s) returned path %s", when, tn, spec)
+			}
 			idx := -1
 			for i, ms := range c27Menu {
 				if ms == spec {
 					idx = i
 				}
 			}
-			x.Check(idx >= 0, "returned-path-never-saved"+sfx, "%s: Get(%s) returned path %s which was never saved", when, tn, spec)
-			x.Check(m.live[idx], "returned-deleted-or-expired-path"+sfx, "%s: Get(%s) returned path %s which was deleted/expired (live: %s)", when, tn, spec, m)
-		}
-		for mask := 0; mask < 16; mask++ {
-			var skips []boson.Address
-			for b := 0; b < 4; b++ {
-				if mask&(1<<uint(b)) != 0 {
-					skips = append(skips, c27Nodes[b+1])
-				}
+			if idx < 0 {
+				x.Fail("returned-path-never-saved"+sfx, "%s: Get(%s) returned path %s which was never saved", when, tn, spec)
 			}
+			if !m.live[idx] {
+				x.Fail("returned-deleted-or-expired-path"+sfx, "%s: Get(%s) returned path %s which was deleted/expired (live: [%s])", when, tn, spec, m)
+			}
+		}
+		// which next hops are backed by a stored path containing the target before its last hop
+		var backed [len(c27NodeNames)]bool
+		for i, ms := range c27Menu {
+			if m.live[i] && c27TargetBeforeLast(ms, t) {
+				backed[strings.IndexByte(c27NodeNames, ms[len(ms)-1])] = true
+			}
+		}
+		// all skip lists over {a,b,c,d}
+		for mask := 0; mask < 16; mask++ {
+			skips := c27SkipSets[mask]
 			next := tab.GetNextHop(target, skips...)
-			seen := map[int]bool{}
+			var seen [len(c27NodeNames)]bool
 			for _, n := range next {
 				ni := c27NodeIdx(n)
-				x.Check(ni >= 0, "nexthop-unknown-node"+sfx, "%s: GetNextHop(%s) offered unknown node %s", when, tn, n)
-				x.Check(!seen[ni], "nexthop-duplicate"+sfx, "%s: GetNextHop(%s, skips=%s) offered %s twice", when, tn, c27Names(skips), c27Name(n))
-				seen[ni] = true
-				x.Check(!n.MemberOf(skips), "nexthop-in-skip-list"+sfx, "%s: GetNextHop(%s, skips=%s) offered %s", when, tn, c27Names(skips), c27Name(n))
-				backed := false
-				for i, ms := range c27Menu {
-					if m.live[i] && c27TargetBeforeLast(ms, t) && ms[len(ms)-1] == c27NodeNames[ni] {
-						backed = true
-					}
+				if ni < 0 {
+					x.Fail("nexthop-unknown-node"+sfx, "%s: GetNextHop(%s) offered unknown node %s", when, tn, n)
 				}
-				x.Check(backed, "nexthop-without-stored-path"+sfx, "%s: GetNextHop(%s, skips=%s) offered %s, but no stored (saved, not deleted/expired) path containing %s ends in %s; live paths: [%s]",
-					when, tn, c27Names(skips), c27Name(n), tn, c27Name(n), m)
+				if seen[ni] {
+					x.Fail("nexthop-duplicate"+sfx, "%s: GetNextHop(%s, skips=%s) offered %s twice", when, tn, c27Names(skips), c27Name(n))
+				}
+				seen[ni] = true
+				if ni > 0 && mask&(1<<uint(ni-1)) != 0 {
+					x.Fail("nexthop-in-skip-list"+sfx, "%s: GetNextHop(%s, skips=%s) offered %s", when, tn, c27Names(skips), c27Name(n))
+				}
+				if !backed[ni] {
+					x.Fail("nexthop-without-stored-path"+sfx, "%s: GetNextHop(%s, skips=%s) offered %s, but no stored (saved, not deleted/expired) path containing %s ends in %s; live paths: [%s]",
+						when, tn, c27Names(skips), c27Name(n), tn, c27Name(n), m)
+				}
 			}
 		}
 	}
 }
+
+var c27SkipSets = func() [][]boson.Address {
+	r := make([][]boson.Address, 16)
+	for mask := range r {
+		for b := 0; b < 4; b++ {
+			if mask&(1<<uint(b)) != 0 {
+				r[mask] = append(r[mask], c27Nodes[b+1])
+			}
+		}
+	}
+	return r
+}()
 
 type c27Op struct {
 	kind string
